@@ -873,6 +873,7 @@ Section MigMatProofs.
     - eapply nth_error_In; eauto.
     - eapply SD_ok; eauto.
     - apply F3; auto.
+    - apply F3; auto.
   Qed.
 
   Lemma forM_ok {A} (f : A -> res unit) l :
